@@ -96,7 +96,21 @@ class ConfigManager(object):
                 logger.debug("Opening config for reading")
                 with open(path, 'r') as f:
                     data = f.read()
-                datadict = self.TYPES[configtype]().reverse(data)
+                try:
+                    datadict = self.TYPES[configtype]().reverse(data)
+                except Exception:
+                    # save(profile, config, TYPE_KEYVAL) writes the profile's config.json whatever the format: when the content
+                    # is not what the extension says, it may still be the other supported format
+                    datadict = None
+                    for othertype, transform in self.TYPES.items():
+                        if othertype != configtype:
+                            try:
+                                datadict = transform().reverse(data)
+                                break
+                            except Exception:
+                                datadict = None
+                    if not datadict:
+                        raise
                 return self.load_data(datadict)
             else:
                 raise ValueError("Unsupported config type")
